@@ -11,12 +11,20 @@
       3 inconsistent AI-client configuration, 2 report not writable, 0 otherwise —
     and a report file exists exactly when a run with --output completed (so a non-zero status never comes with a report).
 
-    What is proved.  The space of worlds is finite (12288) and enumerated completely ([all_worlds_complete]); for ANY value
+    What is proved.  The space of worlds is finite (24576) and enumerated completely ([all_worlds_complete]); for ANY value
     of the generated tables each statement below is either the universal law or a concrete counterexample world
     (the first one of a complete sweep) — the kernel accepts the instance at the current table values.
     [C20_exit_table] is restricted to [in_scope]: outside are the two input classes left as known findings
     (a non-integer `path:line` item; a SARIF file that is not JSON / has no "runs" / is a directory), for which the
     model says [Crash] ([C20_crash_refuted]); [C20_crash_only] says nothing else crashes.
+    The report clause.  A world also says what a failing write leaves behind (nothing, or a truncated file when open()
+    succeeded: [w_write_partial]); outcomes carry [RNone | RPartial | RFull].  [C20_exit_table] demands a complete report
+    exactly when one is due (status 0 with --output).  [C20_nonzero_no_report] is, in the MODEL, a consequence of the
+    chain shapes the translator accepts (the write is the last fallible step, the function ends with `return 0`, no guard
+    may follow the write): it would only fail for a table whose write code is 0 — so for this clause the weight is on
+    (a) the fail-closed recognition of those shapes and (b) the MEASUREMENT by the harness: after every run with a
+    non-zero status it inspects the --output path (absent / not a regular file / a file that is not a complete JSON
+    document), including a run whose write is made to fail half-way by a fault injected from the harness.
     Not modelled: what argparse accepts (an oracle: the harness builds argv per class and observes the real status);
     whether an early-exit option is met before or after an erroneous one on the command line (the harness puts it first). *)
 From CM Require Import Model.Exit Spec.ExitSpec Proofs.ExitFacts Generated.Tables.
@@ -42,15 +50,14 @@ Proof. exact crash_inputs. Qed.
 Print Assumptions C20_crash_refuted.
 
 (** the defects one by one, independent of the other table values *)
-Theorem C20_refuted_unwritable : forall chain code groups validated,
-  run_exit (mkT chain false code groups validated) w_unwritable <> Exit (documented w_unwritable) (report_expected w_unwritable).
+Theorem C20_refuted_unwritable : forall chain code groups validated r,
+  run_exit (mkT chain false code groups validated) w_unwritable <> Exit (documented w_unwritable) r.
 Proof. exact unwritable_dropped. Qed.
 Print Assumptions C20_refuted_unwritable.
 
 Theorem C20_refuted_contrast_unchecked : forall chain used code groups validated,
-  existsb (group_eqb GrContrast) groups = false ->
-  run_exit (mkT chain used code groups validated) w_contrast_missing
-  <> Exit (documented w_contrast_missing) (report_expected w_contrast_missing).
+  existsb (group_eqb GrContrast) groups = false -> forall r,
+  run_exit (mkT chain used code groups validated) w_contrast_missing <> Exit (documented w_contrast_missing) r.
 Proof. exact contrast_unchecked. Qed.
 Print Assumptions C20_refuted_contrast_unchecked.
 
@@ -59,12 +66,18 @@ Theorem C20_refuted_nonpositive_workers : forall chain used code groups,
 Proof. intros. split; [apply workers_unvalidated | reflexivity]. Qed.
 Print Assumptions C20_refuted_nonpositive_workers.
 
+(** pinned form, write failing half-way: status 0 although only a truncated file exists *)
+Theorem C20_refuted_partial_report : forall chain code groups validated,
+  chain_canonical chain = true ->
+  run_exit (mkT chain false code groups validated) w_partial = Exit 0 RPartial /\ documented w_partial = 2%Z.
+Proof. intros. split; [now apply partial_dropped | reflexivity]. Qed.
+Print Assumptions C20_refuted_partial_report.
+
 (** the repaired tables (chain of HEAD + both proposed fixes): the law holds of every world in scope *)
 Definition repaired_tables : exit_tables :=
   mkT [(GDirMissing, 1%Z); (GSarifError, 1%Z); (GResultFileMissing, 1%Z); (GAIMisconfigured, 3%Z); (GReportWrite, 2%Z)]
       true 3%Z [GrSonarIssues; GrSonarHotspots; GrDefectDojo; GrContrast] true.
-Theorem C20_repaired_exit_table : forall w, in_scope w = true ->
-  run_exit repaired_tables w = Exit (documented w) (report_expected w).
+Theorem C20_repaired_exit_table : forall w, in_scope w = true -> conforms w (run_exit repaired_tables w).
 Proof.
   assert (E : exit_counterexamples repaired_tables = []) by (vm_compute; reflexivity).
   pose proof (exit_table_all repaired_tables) as H. unfold exit_table_statement in H. rewrite E in H. exact H.
@@ -93,8 +106,9 @@ Print Assumptions C20_first_applicable.
 (** non-vacuity: worlds in scope on which every documented status occurs, computed through the generated tables' repaired form *)
 Example C20_example_statuses :
   in_scope nominal = true /\ in_scope w_unwritable = true /\
-  run_exit repaired_tables nominal = Exit 0 true /\
-  run_exit repaired_tables w_unwritable = Exit 2 false /\
-  run_exit repaired_tables w_contrast_missing = Exit 1 false /\
-  run_exit repaired_tables w_workers = Exit 3 false.
+  run_exit repaired_tables nominal = Exit 0 RFull /\
+  run_exit repaired_tables w_unwritable = Exit 2 RNone /\
+  run_exit repaired_tables w_partial = Exit 2 RPartial /\
+  run_exit repaired_tables w_contrast_missing = Exit 1 RNone /\
+  run_exit repaired_tables w_workers = Exit 3 RNone.
 Proof. vm_compute. repeat split; reflexivity. Qed.
